@@ -911,6 +911,7 @@ class BackendZ3(Backend):
 
         return model
 
+    @condom
     def _satisfiable(self, extra_constraints=(), solver=None, model_callback=None):
         self.solve_count += 1
 
